@@ -290,9 +290,13 @@ def run_go(ctx, pkg, run, env=None, timeout=900, tags="verif", count=1, extra=()
         # VERIF_REPO=<scratch worktree>: build against it through an alternative go.mod (used to try
         # the checks on seeded changes without touching /repo)
         alt = os.path.join(ctx.work, "go.alt.mod")
-        with open(alt, "w") as f:
-            f.write(open(os.path.join(HARNESS, "go.mod")).read().replace("=> /repo", "=> " + os.path.realpath(REPO)))
-        shutil.copy(os.path.join(REPO, "go.sum"), os.path.join(ctx.work, "go.alt.sum"))
+        with _N_LOCK:
+            if not os.path.exists(alt):
+                tmp = alt + ".tmp%d" % os.getpid()
+                with open(tmp, "w") as f:
+                    f.write(open(os.path.join(HARNESS, "go.mod")).read().replace("=> /repo", "=> " + os.path.realpath(REPO)))
+                shutil.copy(os.path.join(REPO, "go.sum"), os.path.join(ctx.work, "go.alt.sum"))
+                os.replace(tmp, alt)
         modargs = ["-modfile=" + alt]
     cmd = ["go", "test"] + modargs + ["-tags", tags, "-count", str(count), "-vet=off", "-timeout", "%ds" % timeout,
            "-run", run] + list(extra) + [pkg]
